@@ -21,7 +21,17 @@ def parse_args(prop: str):
     ap.add_argument("--seed", type=int, default=int(os.environ.get("VERIF_SEED", "0") or 0))
     ap.add_argument("--replay", default=None, help="re-run the cases stored in a replay file")
     ap.add_argument("--jobs", type=int, default=min(16, os.cpu_count() or 4))
-    return ap.parse_args()
+    args = ap.parse_args()
+    args.base_seed = args.seed
+    args.seed += MULTI["offset"]
+    return args
+
+
+# thorough tier: the whole check (generators, replays into the library, trace validation) is run
+# for several seeds; the evidence file is written once, for all of them
+MULTI = {"offset": 0, "runs": [], "last": True}
+THOROUGH_SEEDS = {"C10": 2, "C03": 3, "C07": 3, "C05": 4}
+THOROUGH_SEEDS_DEFAULT = 5
 
 
 def repo_rev() -> dict:
@@ -88,7 +98,8 @@ class Verdict:
             groups.setdefault(key, []).append((what, sig, replay))
         for n, (key, items) in enumerate(list(groups.items())[:25]):
             what, sig, replay = items[0]
-            path = os.path.join(REPLAYS, f"{self.prop}-{n}.json")
+            tag = f"s{self.args.seed}-" if MULTI["offset"] else ""
+            path = os.path.join(REPLAYS, f"{self.prop}-{tag}{n}.json")
             with open(path, "w") as fh:
                 json.dump({"property": self.prop, "what": what, "signature": sig,
                            "occurrences": len(items),
@@ -116,6 +127,24 @@ class Verdict:
         }
         if extra:
             ev.update(extra)
+        MULTI["runs"].append({"seed": self.args.seed, "wall_s": ev["wall_s"], "violations": len(self.violations),
+                              "coverage_counts": {k: v for k, v in coverage.items() if isinstance(v, int) and not isinstance(v, bool)}})
+        if len(MULTI["runs"]) > 1:
+            # evidence for the whole multi-seed run: counts are sums over the seeds (the exhaustive model
+            # run is the same for every seed: its states / transitions are reported once)
+            once = {"states", "transitions", "model_scenarios", "statusword_table_rows", "obligations", "discharged"}
+            cov = dict(coverage)
+            for k in list(cov):
+                if isinstance(cov[k], int) and not isinstance(cov[k], bool) and k not in once:
+                    vals = [r["coverage_counts"].get(k, 0) for r in MULTI["runs"]]
+                    # "distinct" counts: the seeds share their hand-made cases, so do not add them up
+                    cov[k] = max(vals) if ("distinct" in k or "covered" in k) else sum(vals)
+            cov["seeds_run"] = [r["seed"] for r in MULTI["runs"]]
+            ev["coverage"] = cov
+            ev["seed"] = getattr(self.args, "base_seed", self.args.seed)
+            ev["wall_s"] = round(sum(r["wall_s"] for r in MULTI["runs"]), 2)
+            ev["violations"] = sum(r["violations"] for r in MULTI["runs"])
+            ev["per_seed"] = MULTI["runs"]
         if not self.args.replay:
             os.makedirs(EVIDENCE, exist_ok=True)
             tmp = os.path.join(EVIDENCE, f".{self.prop}.json.tmp")
@@ -131,7 +160,17 @@ class Verdict:
 def main_wrapper(fn):
     """Run a check's main(); machinery failures exit 2, never 1."""
     try:
-        sys.exit(fn())
+        argv = sys.argv[1:]
+        thorough = any(a == "thorough" or a.endswith("=thorough") for a in argv) and "--replay" not in argv
+        if not thorough:
+            sys.exit(fn())
+        prop = os.path.basename(sys.modules[fn.__module__].__file__)[:-3].upper() if fn.__module__ in sys.modules else ""
+        reps = int(os.environ.get("VERIF_THOROUGH_SEEDS") or THOROUGH_SEEDS.get(prop, THOROUGH_SEEDS_DEFAULT))
+        worst = 0
+        for r in range(reps):
+            MULTI["offset"] = 1000 * r
+            worst = max(worst, fn() or 0)
+        sys.exit(worst)
     except SystemExit:
         raise
     except BaseException as exc:  # noqa
